@@ -5,6 +5,7 @@ import ast
 
 from pta.check import Spec
 from pta.model import AnalysisError
+from pta.pat import find, has, kwarg, stmt_is
 from pta.order import _own_nodes
 
 SHAPE_ANN = ("ShapeType", "ShapeComponent", "ConvertibleToShape")
@@ -205,38 +206,51 @@ def r_decision(c):
     m = c.model
     fd = m.func("pytato.utils.are_shape_components_equal")
     where = m.loc("pytato.utils", fd)
-    src = ast.unparse(fd)
+    d1, d2 = fd.args.args[0].arg, fd.args.args[1].arg
     rets = [r for r in ast.walk(fd) if isinstance(r, ast.Return)]
-    last = max(rets, key=lambda r: r.lineno).value
-    ok = isinstance(last, ast.BoolOp) and isinstance(last.op, ast.And) and \
-        any("is_cst()" in ast.unparse(v) for v in last.values) and \
-        any("get_constant_val().is_zero()" in ast.unparse(v) for v in last.values)
+    last = max(rets, key=lambda r: r.lineno)
+    dec = find(last, "$aff.is_cst() and $aff.get_constant_val().is_zero()")
+    dec = [e for e in dec if e["@node"] is last.value]
+    diffs = find(fd, f"$d = {d1} - {d2}") + find(fd, f"$d = {d2} - {d1}")
+    dv = diffs[0]["$d"] if len(diffs) == 1 else "?"
+    ok = len(dec) == 1 and has(fd, f"{dec[0]['$aff']} = ShapeToISLExpressionMapper($sp)({dv})")
     c.check(ok, "R16-DECISION", "utils.are_shape_components_equal",
             "true-only-for-constant-zero-difference", where,
             "the decision is no longer `difference is constant AND that constant is "
             "zero`: a non-constant or non-zero difference could be accepted as equal")
-    c.check("dim1 - dim2" in src, "R16-DECISION", "utils.are_shape_components_equal",
-            "forms-the-difference", where, "the difference dim1 - dim2 is not formed")
-    fast = [i for i in ast.walk(fd) if isinstance(i, ast.If)
-            and "isinstance(dim1, INT_CLASSES) and isinstance(dim2, INT_CLASSES)" in ast.unparse(i.test)]
-    c.check(len(fast) == 1 and any(isinstance(s, ast.Return) and ast.unparse(s.value) == "dim1 == dim2"
-                                   for s in fast[0].body), "R16-DECISION",
+    # every other assignment to the difference only deduplicates it
+    others = [a for a in ast.walk(fd) if isinstance(a, ast.Assign)
+              and ast.unparse(a.targets[0]) == dv and not stmt_is(a, f"{dv} = {d1} - {d2}")
+              and not stmt_is(a, f"{dv} = {d2} - {d1}")]
+    c.check(len(diffs) == 1 and all(stmt_is(a, f"{dv} = deduplicate({dv})") for a in others),
+            "R16-DECISION", "utils.are_shape_components_equal",
+            "forms-the-difference", where,
+            "the ISL expression is not built from the difference of the two components")
+    fast = [i for i in ast.walk(fd) if isinstance(i, ast.If) and ast.unparse(i.test) in (
+        f"isinstance({d1}, INT_CLASSES) and isinstance({d2}, INT_CLASSES)",
+        f"isinstance({d2}, INT_CLASSES) and isinstance({d1}, INT_CLASSES)")]
+    c.check(len(fast) == 1 and any(
+        isinstance(s, ast.Return) and ast.unparse(s.value) in (f"{d1} == {d2}", f"{d2} == {d1}")
+        for s in fast[0].body), "R16-DECISION",
             "utils.are_shape_components_equal", "integer-fast-path-is-equality", where,
             "the integer fast path is not plain equality of two integers")
     sp = m.func("pytato.utils._create_size_param_space")
-    c.check("params=sorted(names)" in ast.unparse(sp), "R16-DECISION",
+    c.check(bool(kwarg(sp, "params", f"sorted({sp.args.args[0].arg})",
+                       func="create_from_names")), "R16-DECISION",
             "utils._create_size_param_space", "sorted-parameter-space",
             m.loc("pytato.utils", sp),
             "the parameter space is not created from the sorted names")
     se = m.func("pytato.utils.are_shapes_equal")
-    s2 = ast.unparse(se)
-    c.check("len(shape1) == len(shape2)" in s2 and "are_shape_components_equal(dim1, dim2)" in s2
-            and "all(" in s2, "R16-DECISION", "utils.are_shapes_equal",
+    s1, s2 = se.args.args[0].arg, se.args.args[1].arg
+    c.check(has(se, f"return len({s1}) == len({s2}) and all((are_shape_components_equal($a, $b) "
+                    f"for $a, $b in zip({s1}, {s2}, strict=True)))"),
+            "R16-DECISION", "utils.are_shapes_equal",
             "same-rank-and-all-components", m.loc("pytato.utils", se),
             "shapes are no longer equal iff same rank and all components equal")
     # the ISL mapper maps size params to their own variable and evaluates affinely
     mp = m.func("pytato.utils.ShapeToISLExpressionMapper.map_size_param")
-    c.check("self.space.get_var_dict()[expr.name]" in ast.unparse(mp), "R16-DECISION",
+    c.check(has(mp, f"$dt, $pos = self.space.get_var_dict()[{mp.args.args[1].arg}.name]\n"
+                    "return isl.Aff.var_on_domain(self.space, $dt, $pos)"), "R16-DECISION",
             "utils.ShapeToISLExpressionMapper.map_size_param", "variable-by-own-name",
             m.loc("pytato.utils", mp),
             "a size parameter is not mapped to the space variable of its own name")
